@@ -57,6 +57,7 @@ class TableBuilder:
         self._index: dict[tuple, int] = {}
         self.kernel_calls: list[dict] = []
         self.gens: list[dict] = []
+        self.self_writes: list[dict] = []     # `self.<attr> = …` / in-place mutation of instance state inside mask_func + helpers
 
     # -- class hierarchy ---------------------------------------------------------------------
     def resolve(self, cls: str, name: str):
@@ -124,8 +125,42 @@ class TableBuilder:
                "param_prov": param_prov, "top": lead is None}
         self.walk_body(fn.body, ctx, scopes={"self.rng"} if in_priv_scope else set(), lead=lead)
 
+    _MUTATORS = {"append", "update", "setdefault", "pop", "clear", "add", "extend", "insert", "remove", "popitem",
+                 "__setitem__", "discard", "sort", "reverse", "fill"}
+
+    def scan_self_writes(self, st, ctx):
+        """instance state written by this (simple) statement: the model's body is a function of its arguments and of
+        the drawn values only, so any per-instance memory (memo, cache, counter) must be visible here"""
+        found = []
+        for n in ast.walk(st):
+            if isinstance(n, (ast.Attribute, ast.Subscript)) and isinstance(getattr(n, "ctx", None), (ast.Store, ast.Del)):
+                b = n
+                while isinstance(b, (ast.Attribute, ast.Subscript)):
+                    b = b.value
+                if isinstance(b, ast.Name) and b.id == "self":
+                    found.append((n.lineno, ast.unparse(n)[:50]))
+            if isinstance(n, ast.Call):
+                ch = _chain(n.func)
+                if ch in ("setattr", "object.__setattr__") and n.args and ast.unparse(n.args[0]) == "self":
+                    found.append((n.lineno, ast.unparse(n)[:50]))
+                if ch and ch.startswith("self.") and len(ch.split(".")) == 3 and ch.split(".")[1] != "rng" \
+                        and ch.split(".")[2] in self._MUTATORS:
+                    found.append((n.lineno, ast.unparse(n)[:50]))
+                if ch and ch.startswith("self.__dict__"):
+                    found.append((n.lineno, ast.unparse(n)[:50]))
+        for ln, txt in found:
+            rec = {"gen": self._gen["name"], "func": ctx["qual"], "lineno": ln, "text": txt.replace('"', "'")}
+            if rec not in self.self_writes:
+                self.self_writes.append(rec)
+
     def walk_body(self, stmts, ctx, scopes, lead):
         for st in stmts:
+            if not isinstance(st, (ast.With, ast.For, ast.While, ast.If, ast.Try, ast.FunctionDef, ast.ClassDef)):
+                self.scan_self_writes(st, ctx)
+            elif isinstance(st, (ast.For, ast.With)):
+                # loop targets / `with … as self.x`
+                hdr = st.target if isinstance(st, ast.For) else ast.Tuple(elts=[i.optional_vars for i in st.items if i.optional_vars], ctx=ast.Store())
+                self.scan_self_writes(hdr, ctx)
             ld = lead
             if ctx["top"]:
                 ld = 0 <= st.lineno < self._gen["acs_line"] if not isinstance(
@@ -382,7 +417,8 @@ def rng_table() -> dict:
         for g in GENERATORS:
             tb.generator(g)
         _CACHE[key] = {"sites": tb.sites, "gens": tb.gens, "kernel_calls": tb.kernel_calls, "pyx": pyx_kernels(),
-                       "temp_seed_shape": temp_seed_shape(tree), "plumbing": plumbing(), "calgary": calgary_report()}
+                       "temp_seed_shape": temp_seed_shape(tree), "plumbing": plumbing(), "calgary": calgary_report(),
+                       "self_writes": tb.self_writes}
     return _CACHE[key]
 
 
@@ -413,6 +449,13 @@ def _lean_text(t: dict) -> str:
     L.append("]\n")
     L.append("/-- .pyx kernels: `srand(seed)` on the int parameter `seed`, once, before any `rand()` -/")
     L.append("def pyxKernels : List (String × Bool) := [" + ", ".join(f"(\"{k['name']}\", {_b(k['ok'])})" for k in t["pyx"]) + "]\n")
+    L.append("/-- instance state written inside `mask_func` or a helper it calls: (generator, where, what) — must be empty -/")
+    L.append("def selfWrites : List (String × String × String) := [")
+    sw = t.get("self_writes", [])
+    for i, w in enumerate(sw):
+        sep = "," if i + 1 < len(sw) else ""
+        L.append(f'  ("{w["gen"]}", "{w["func"]}:{w["lineno"]}", "{w["text"]}"){sep}')
+    L.append("]\n")
     L.append("/-- seed plumbing into the generators (`CreateSamplingMask.__call__`, `integerize_seed`): (fact, holds) -/")
     L.append("def plumbing : List (String × Bool) := [")
     for i, (txt, ok) in enumerate(t["plumbing"]):
@@ -438,13 +481,14 @@ def _extra():
                 + ", ".join(f"(\"{g}\", true, [0], [0])" for g in GENERATORS) + "]\n"
                 "def kernelCalls : List (Bool × Bool) := []\n"
                 "def plumbing : List (String × Bool) := []\n"
+                "def selfWrites : List (String × String × String) := []\n"
                 "def pyxKernels : List (String × Bool) := []\n"
                 "def tempSeedShape : List String := [" + ", ".join(f"\"{x}\"" for x in TEMP_SEED_SHAPE) + "]\n")
         return text, {"rng_access_table": f"skipped: {e}"}
     cg = t.get("calgary", {})
     return _lean_text(t), {"rng_access_table": "translated", "temp_seed_shape": "translated",
                            "kernel_seed_provenance": "translated", "pyx_srand_order": "translated",
-                           "seed_plumbing": "translated",
+                           "seed_plumbing": "translated", "instance_state_writes": "translated",
                            "calgary_campinas(report only)": "all draws on self.rng inside temp_seed(self.rng, seed)"
                            if cg.get("all_ok") else f"NOT admissible: {cg}"}
 
